@@ -191,6 +191,10 @@ def r2_r3(ctx):
       okpop = [U(a) for a in call.args] == [tag, 'None']
       fs = FACTS(ev[pops[0][0]:rel[0]])
       ok = okpop and ((var + 'isnotNone', True) in fs or (var, True) in fs or (var + 'isNone', False) in fs)
+      if not ok and [U(a) for a in call.args] == [tag]:
+        # explicit membership test, then a pop that cannot miss
+        fb = FACTS(ev[:pops[0][0]])
+        ok = ('%sinself._tag_map' % tag, True) in fb or ('%snotinself._tag_map' % tag, False) in fb
       ok = ok and [U(a) for a in ev[rel[0]].node.args] == [tag]
     ctx.ob('C11.R2', rt, 'release is control-dependent on the tag having been registered', ok,
            'release is reached without a "popped entry is not None" fact', why2)
